@@ -258,6 +258,9 @@ class PathEnum:
                         ct = ("agg", "std::ops::ControlFlow", "Continue", args[0][3])
                     else:
                         ct = ("agg", "std::ops::ControlFlow", "Break", (args[0],))
+                elif path == "std::ops::Try::branch" and args and args[0][0] == "call" and args[0][1] == "std::ops::FromResidual::from_residual":
+                    # `?` applied to a value that is itself a propagated residual: always breaks
+                    ct = ("agg", "std::ops::ControlFlow", "Break", (("residual", args[0]),))
                 elif path == "std::ops::FromResidual::from_residual" and args and args[0][0] == "agg" and args[0][2] == "Err":
                     ct = args[0]
                 elif path == "std::ops::FromResidual::from_residual" and ((c.get("self_ty") or {}).get("path") == "std::option::Option"):
